@@ -368,74 +368,77 @@ theorem stepOK_one {w w' : World} {j j' : JState} {e : Ev} {st : Status} (hst : 
   simp only [List.foldl, hst, if_false, hj]
   exact ⟨h, hf⟩
 
-theorem sim_stepOp {w : World} {j : JState} (h : RP w j) (ha : opAllowed j = true) (self : Nat) (op : Op) :
-    StepOK w j (stepOp w self op) := by
+/-- destruct of an object without inventory: set_heart_beat (ob, 0) then O_DESTRUCTED -/
+theorem sim_destLeaf {w : World} {j : JState} (h : RP w j) (t : Nat) (hat : w.alive t = true) :
+    RP (destructLeaf w t) { jDisable j t with dead := t :: j.dead } ∧
+    Frame j { jDisable j t with dead := t :: j.dead } := by
+  have hs := sim_disable h t (alive_not_dead hat)
+  have hfl := jDisable_fields j t
+  have hfr := jDisable_frame j t
+  have hknown : w.known.contains t = true := by
+    unfold World.alive at hat; simp only [Bool.and_eq_true] at hat; exact hat.1
+  rw [destructLeaf_ref]
+  refine ⟨⟨⟨hs.1.hbs, hs.1.known, hs.1.nofn, ?_, hs.1.flag, hs.1.cur, hs.1.ok, hs.1.cap, ?_⟩, ?_⟩,
+    ⟨hfr.bad, hfr.inRound, hfr.expect, hfr.pend⟩⟩
+  · show t :: (setHeartBeat w t 0).dead = t :: j.dead
+    rw [hs.1.dead, hfl.2.2.1]
+  · intro x hx
+    show (setHeartBeat w t 0).known.contains x = true
+    have hx' : (t :: (setHeartBeat w t 0).dead).contains x = true := hx
+    simp only [List.contains_cons, Bool.or_eq_true, beq_iff_eq] at hx'
+    rcases hx' with hx' | hx'
+    · subst hx'; rw [hs.1.known, hfl.1, ← h.1.known]; exact hknown
+    · exact hs.1.sub x hx'
+  · intro hr; exact hs.2 hr
+
+theorem sim_stepOpBasic {w : World} {j : JState} (h : RP w j) (ha : opAllowed j = true) (self : Nat) (op : Op) :
+    StepOK w j (stepOpBasic w self op) := by
   have hal := alive_eq h.1
   cases op with
   | shb t n =>
     cases hat : w.alive t with
     | false =>
       have hjt : j.alive t = false := by rw [← hal, hat]
-      have hst : stepOp w self (.shb t n) = (w, [.shbDead self t n], .ok) := by simp [stepOp, hat]
+      have hst : stepOpBasic w self (.shb t n) = (w, [.shbDead self t n], .ok) := by simp [stepOpBasic, hat]
       rw [hst]
       exact stepOK_one (by decide) (by simp [judge1, hjt]) h (Frame.refl j)
     | true =>
       have hjt : j.alive t = true := by rw [← hal, hat]
       have hs := sim_set h t n (alive_not_dead hat)
       have hq := query_eq hs.1 t
-      have hst : stepOp w self (.shb t n) =
+      have hst : stepOpBasic w self (.shb t n) =
           (setHeartBeat w t (satEfun n), [.shb self t n (jQuery (jSet j t n) t)], .ok) := by
-        simp [stepOp, hat, hq, gen_efunSat_eq]
+        simp [stepOpBasic, hat, hq, gen_efunSat_eq]
       rw [hst]
       exact stepOK_one (by decide) (by simp [judge1, ha, hjt]) hs (jSet_frame j t n)
   | q t =>
     cases hat : w.alive t with
     | false =>
       have hjt : j.alive t = false := by rw [← hal, hat]
-      have hst : stepOp w self (.q t) = (w, [.queryDead self t], .ok) := by simp [stepOp, hat]
+      have hst : stepOpBasic w self (.q t) = (w, [.queryDead self t], .ok) := by simp [stepOpBasic, hat]
       rw [hst]
       exact stepOK_one (by decide) (by simp [judge1, hjt]) h (Frame.refl j)
     | true =>
       have hjt : j.alive t = true := by rw [← hal, hat]
-      have hst : stepOp w self (.q t) = (w, [.query self t (jQuery j t)], .ok) := by
-        simp [stepOp, hat, query_eq h.1 t]
+      have hst : stepOpBasic w self (.q t) = (w, [.query self t (jQuery j t)], .ok) := by
+        simp [stepOpBasic, hat, query_eq h.1 t]
       rw [hst]
       exact stepOK_one (by decide) (by simp [judge1, hjt]) h (Frame.refl j)
   | dest t =>
     by_cases hc : (!w.alive t || decide (t < 2)) = true
     · have hc' : (j.alive t && !decide (t < 2)) = false := by
         rw [← hal]; cases hx : w.alive t <;> cases hy : decide (t < 2) <;> simp_all
-      have hst : stepOp w self (.dest t) = (w, [.destNone self t], .ok) := by
-        simp only [stepOp]; rw [if_pos hc]
+      have hst : stepOpBasic w self (.dest t) = (w, [.destNone self t], .ok) := by
+        simp only [stepOpBasic]; rw [if_pos hc]
       rw [hst]
       exact stepOK_one (by decide) (by simp only [judge1]; rw [if_neg (by rw [hc']; decide)]) h (Frame.refl j)
-    · have hst : stepOp w self (.dest t) =
-          ({ setHeartBeat w t 0 with dead := t :: (setHeartBeat w t 0).dead }, [.dest self t],
-            if t = self then .stop else .ok) := by
-        simp only [stepOp]; rw [if_neg hc]
+    · have hst : stepOpBasic w self (.dest t) = (destructLeaf w t, [.dest self t], if (destructLeaf w t).alive self then .ok else .stop) := by
+        simp only [stepOpBasic]; rw [if_neg hc]
       simp only [Bool.not_eq_true] at hc
       have hat : w.alive t = true := by cases hx : w.alive t <;> simp_all
       have ht2 : decide (t < 2) = false := by cases hy : decide (t < 2) <;> simp_all
       have hjt : j.alive t = true := by rw [← hal, hat]
-      have hs := sim_disable h t (alive_not_dead hat)
-      have hfl := jDisable_fields j t
-      have hfr := jDisable_frame j t
-      have hknown : w.known.contains t = true := by
-        unfold World.alive at hat; simp only [Bool.and_eq_true] at hat; exact hat.1
-      have hR : RP { setHeartBeat w t 0 with dead := t :: (setHeartBeat w t 0).dead }
-          { jDisable j t with dead := t :: j.dead } := by
-        refine ⟨⟨hs.1.hbs, hs.1.known, hs.1.nofn, ?_, hs.1.flag, hs.1.cur, hs.1.ok, hs.1.cap, ?_⟩, ?_⟩
-        · show t :: (setHeartBeat w t 0).dead = t :: j.dead
-          rw [hs.1.dead, hfl.2.2.1]
-        · intro x hx
-          show (setHeartBeat w t 0).known.contains x = true
-          have hx' : (t :: (setHeartBeat w t 0).dead).contains x = true := hx
-          simp only [List.contains_cons, Bool.or_eq_true, beq_iff_eq] at hx'
-          rcases hx' with hx' | hx'
-          · subst hx'; rw [hs.1.known, hfl.1, ← h.1.known]; exact hknown
-          · exact hs.1.sub x hx'
-        · intro hr; exact hs.2 hr
-      have hF : Frame j { jDisable j t with dead := t :: j.dead } := ⟨hfr.bad, hfr.inRound, hfr.expect, hfr.pend⟩
+      obtain ⟨hR, hF⟩ := sim_destLeaf h t hat
       have hjd : judge1 j (.dest self t) = { jDisable j t with dead := t :: j.dead } := by
         simp [judge1, ha, hjt, ht2]
       rw [hst]
@@ -444,15 +447,15 @@ theorem sim_stepOp {w : World} {j : JState} (h : RP w j) (ha : opAllowed j = tru
     cases hk : w.known.contains new with
     | true =>
       have hjk : j.known.contains new = true := by rw [← h.1.known, hk]
-      have hst : stepOp w self (.clone new kind n) = (w, [.cloneDup self new], .ok) := by
-        simp only [stepOp]; rw [if_pos hk]
+      have hst : stepOpBasic w self (.clone new kind n) = (w, [.cloneDup self new], .ok) := by
+        simp only [stepOpBasic]; rw [if_pos hk]
       rw [hst]
       exact stepOK_one (by decide) (by simp only [judge1]; rw [if_pos hjk]) h (Frame.refl j)
     | false =>
       have hjk : j.known.contains new = false := by rw [← h.1.known, hk]
       have h1 := sim_disableAlive h (if kind = 0 then 0 else 1)
       have hf1 := jDisableAlive_frame j (if kind = 0 then 0 else 1)
-      have hst : stepOp w self (.clone new kind n) =
+      have hst : stepOpBasic w self (.clone new kind n) =
           (setHeartBeat { setHeartBeat w (if kind = 0 then 0 else 1) 0 with
               known := new :: (setHeartBeat w (if kind = 0 then 0 else 1) 0).known,
               nofn := if kind = 0 then (setHeartBeat w (if kind = 0 then 0 else 1) 0).nofn
@@ -462,7 +465,7 @@ theorem sim_stepOp {w : World} {j : JState} (h : RP w j) (ha : opAllowed j = tru
               known := new :: (setHeartBeat w (if kind = 0 then 0 else 1) 0).known,
               nofn := if kind = 0 then (setHeartBeat w (if kind = 0 then 0 else 1) 0).nofn
                       else new :: (setHeartBeat w (if kind = 0 then 0 else 1) 0).nofn } new (satEfun n)) new)], .ok) := by
-        simp only [stepOp, gen_efunSat_eq]; rw [if_neg (by rw [hk]; decide)]
+        simp only [stepOpBasic, gen_efunSat_eq]; rw [if_neg (by rw [hk]; decide)]
       rw [hst]
       generalize setHeartBeat w (if kind = 0 then 0 else 1) 0 = w1 at h1 ⊢
       generalize hj1 : jDisableAlive j (if kind = 0 then 0 else 1) = j1 at h1 hf1
@@ -499,20 +502,26 @@ theorem sim_stepOp {w : World} {j : JState} (h : RP w j) (ha : opAllowed j = tru
       simp only [judge1, ha, hjk, hkk, hj1, hk0]
       simp
   | err =>
-    unfold stepOp StepOK
+    unfold stepOpBasic StepOK
     simp only [List.foldl, judge1_err, if_true]
     exact sim_err h
   | flag =>
-    have hst : stepOp w self .flag = ({ w with flag := true }, [.flag self], .ok) := rfl
+    have hst : stepOpBasic w self .flag = ({ w with flag := true }, [.flag self], .ok) := rfl
     rw [hst]
     exact stepOK_one (by decide) rfl
       ⟨⟨h.1.hbs, h.1.known, h.1.nofn, h.1.dead, rfl, h.1.cur, h.1.ok, h.1.cap, h.1.sub⟩, h.2⟩
       ⟨rfl, rfl, rfl, Nat.le_refl _⟩
   | hbs =>
-    have hst : stepOp w self .hbs = (w, [.hbs self (j.all.map (·.ob)).reverse], .ok) := by
-      simp only [stepOp]; rw [h.1.hbs]; rfl
+    have hst : stepOpBasic w self .hbs = (w, [.hbs self (j.all.map (·.ob)).reverse], .ok) := by
+      simp only [stepOpBasic]; rw [h.1.hbs]; rfl
     rw [hst]
     exact stepOK_one (by decide) (by simp [judge1]) h (Frame.refl j)
+  | take i =>
+    simp only [stepOpBasic]
+    split
+    · exact stepOK_one (by decide) rfl
+        ⟨⟨h.1.hbs, h.1.known, h.1.nofn, h.1.dead, h.1.flag, h.1.cur, h.1.ok, h.1.cap, h.1.sub⟩, h.2⟩ (Frame.refl j)
+    · exact stepOK_one (by decide) rfl h (Frame.refl j)
 
 theorem stepOK_nil (w : World) (j : JState) (h : RP w j) : StepOK w j (w, [], .ok) := by
   unfold StepOK
@@ -521,6 +530,190 @@ theorem stepOK_nil (w : World) (j : JState) (h : RP w j) : StepOK w j (w, [], .o
 
 theorem opAllowed_frame {j j' : JState} (hf : Frame j j') (ha : opAllowed j = true) : opAllowed j' = true := by
   unfold opAllowed at *; rw [hf.expect]; exact ha
+
+theorem sim_runOpsBasic (self : Nat) : ∀ (ops : List Op) (w : World) (j : JState), RP w j → opAllowed j = true →
+    StepOK w j (runOpsBasic w self ops) := by
+  intro ops
+  induction ops with
+  | nil => intro w j h _; exact stepOK_nil w j h
+  | cons op rest ih =>
+    intro w j h ha
+    have h1 := sim_stepOpBasic h ha self op
+    cases hs : stepOpBasic w self op with
+    | mk w1 r =>
+      cases r with
+      | mk evs st =>
+        rw [hs] at h1
+        cases st with
+        | ok =>
+          unfold StepOK at h1
+          simp only [reduceCtorEq, if_false] at h1
+          obtain ⟨hR1, hF1⟩ := h1
+          have h2 := ih w1 (evs.foldl judge1 j) hR1 (opAllowed_frame hF1 ha)
+          simp only [runOpsBasic, hs]
+          cases hr : runOpsBasic w1 self rest with
+          | mk w2 r2 =>
+            cases r2 with
+            | mk evs2 st2 =>
+              rw [hr] at h2
+              unfold StepOK at h2 ⊢
+              simp only [List.foldl_append]
+              by_cases he : st2 = .err
+              · simp only [he, if_true] at h2 ⊢
+                obtain ⟨a, b, c, d, e⟩ := h2
+                refine ⟨a, b.trans hF1.bad, c.trans hF1.inRound, ?_, e⟩
+                rw [d, hF1.inRound, hF1.expect]
+              · simp only [he, if_false] at h2 ⊢
+                exact ⟨h2.1, Frame.trans hF1 h2.2⟩
+        | err => simp only [runOpsBasic, hs]; exact h1
+        | stop => simp only [runOpsBasic, hs]; exact h1
+
+theorem stepOpBasic_ok (w : World) (self : Nat) (op : Op) (h : hookAllowed op = true) :
+    (stepOpBasic w self op).2.2 = .ok := by
+  cases op with
+  | shb t n => simp only [stepOpBasic]; split <;> rfl
+  | q t => simp only [stepOpBasic]; split <;> rfl
+  | clone a b c => simp only [stepOpBasic]; split <;> rfl
+  | flag => rfl
+  | hbs => rfl
+  | dest t => cases h
+  | err => cases h
+  | take i => cases h
+
+theorem runOpsBasic_ok (self : Nat) : ∀ (ops : List Op) (w : World), (∀ op ∈ ops, hookAllowed op = true) →
+    (runOpsBasic w self ops).2.2 = .ok := by
+  intro ops
+  induction ops with
+  | nil => intro w _; rfl
+  | cons op rest ih =>
+    intro w h
+    have h1 := stepOpBasic_ok w self op (h op (by simp))
+    cases hs : stepOpBasic w self op with
+    | mk w1 r =>
+      cases r with
+      | mk evs st =>
+        rw [hs] at h1
+        simp only at h1
+        subst h1
+        simp only [runOpsBasic, hs]
+        have h2 := ih w1 (fun o ho => h o (by simp [ho]))
+        cases hr : runOpsBasic w1 self rest with
+        | mk w2 r2 =>
+          cases r2 with
+          | mk evs2 st2 => rw [hr] at h2; exact h2
+
+/-- what the inventory loop of destruct_object maintains -/
+def HooksOK (j : JState) (r : World × List Ev) : Prop :=
+  RP r.1 (r.2.foldl judge1 j) ∧ Frame j (r.2.foldl judge1 j)
+
+theorem sim_hookStep {j : JState} (ha : opAllowed j = true) (carrier : Nat) (acc : World × List Ev)
+    (h : HooksOK j acc) (i : Nat) : HooksOK j (hookStep carrier acc i) := by
+  obtain ⟨hR, hF⟩ := h
+  unfold hookStep
+  split
+  · exact ⟨hR, hF⟩
+  · have ha0 := opAllowed_frame hF ha
+    have hall : ∀ op ∈ (acc.1.hooks i).filter hookAllowed, hookAllowed op = true := by
+      intro op hop; exact (List.mem_filter.mp hop).2
+    have hok := runOpsBasic_ok i _ acc.1 hall
+    have hs := sim_runOpsBasic i ((acc.1.hooks i).filter hookAllowed) acc.1 (acc.2.foldl judge1 j) hR ha0
+    cases hr : runOpsBasic acc.1 i ((acc.1.hooks i).filter hookAllowed) with
+    | mk w1 r =>
+      cases r with
+      | mk e1 st =>
+        rw [hr] at hok hs
+        simp only at hok
+        subst hok
+        unfold StepOK at hs
+        simp only [reduceCtorEq, if_false] at hs
+        obtain ⟨hR1, hF1⟩ := hs
+        have hjh : judge1 (acc.2.foldl judge1 j) (.hook i carrier) = acc.2.foldl judge1 j := by
+          simp [judge1, ha0]
+        have ha1 := opAllowed_frame hF1 ha0
+        have hal := alive_eq hR1.1
+        dsimp only
+        cases hat : w1.alive i with
+        | true =>
+          have hjt : (e1.foldl judge1 (acc.2.foldl judge1 j)).alive i = true := by rw [← hal, hat]
+          obtain ⟨hR2, hF2⟩ := sim_destLeaf hR1 i hat
+          simp only [if_true, HooksOK, List.foldl_append, List.foldl_cons, List.foldl_nil, hjh]
+          have hje : judge1 (e1.foldl judge1 (acc.2.foldl judge1 j)) (.hookEnd i) =
+              { jDisable (e1.foldl judge1 (acc.2.foldl judge1 j)) i with dead := i :: (e1.foldl judge1 (acc.2.foldl judge1 j)).dead } := by
+            simp [judge1, ha1, hjt]
+          rw [hje]
+          exact ⟨hR2, Frame.trans hF (Frame.trans hF1 hF2)⟩
+        | false =>
+          have hjt : (e1.foldl judge1 (acc.2.foldl judge1 j)).alive i = false := by rw [← hal, hat]
+          simp only [Bool.false_eq_true, if_false, HooksOK, List.foldl_append, List.foldl_cons, List.foldl_nil, hjh]
+          have hje : judge1 (e1.foldl judge1 (acc.2.foldl judge1 j)) (.hookGone i) = e1.foldl judge1 (acc.2.foldl judge1 j) := by
+            simp [judge1, hjt]
+          rw [hje]
+          exact ⟨hR1, Frame.trans hF hF1⟩
+
+theorem sim_hooksFold {j : JState} (ha : opAllowed j = true) (carrier : Nat) : ∀ (items : List Nat) (acc : World × List Ev),
+    HooksOK j acc → HooksOK j (items.foldl (hookStep carrier) acc) := by
+  intro items
+  induction items with
+  | nil => intro acc h; exact h
+  | cons i r ih => intro acc h; exact ih _ (sim_hookStep ha carrier acc h i)
+
+theorem sim_hooksPhase {w : World} {j : JState} (h : RP w j) (ha : opAllowed j = true) (t : Nat) :
+    HooksOK j (hooksPhase w t) :=
+  sim_hooksFold ha t _ (w, []) ⟨h, Frame.refl j⟩
+
+/-- every operation, destruct with its inventory hooks included -/
+theorem sim_stepOp {w : World} {j : JState} (h : RP w j) (ha : opAllowed j = true) (self : Nat) (op : Op) :
+    StepOK w j (stepOp w self op) := by
+  cases op with
+  | dest t =>
+    have hal := alive_eq h.1
+    by_cases hc : (!w.alive t || decide (t < 2)) = true
+    · have hc' : (j.alive t && !decide (t < 2)) = false := by
+        rw [← hal]; cases hx : w.alive t <;> cases hy : decide (t < 2) <;> simp_all
+      have hst : stepOp w self (.dest t) = (w, [.destNone self t], .ok) := by
+        simp only [stepOp]; rw [if_pos hc]
+      rw [hst]
+      exact stepOK_one (by decide) (by simp only [judge1]; rw [if_neg (by rw [hc']; decide)]) h (Frame.refl j)
+    · have ht2 : decide (t < 2) = false := by
+        simp only [Bool.not_eq_true] at hc
+        cases hy : decide (t < 2) <;> simp_all
+      obtain ⟨hR1, hF1⟩ := sim_hooksPhase h ha t
+      have ha1 := opAllowed_frame hF1 ha
+      have hal1 := alive_eq hR1.1
+      simp only [stepOp]
+      rw [if_neg hc, destructFull_ref]
+      cases hat : (hooksPhase w t).1.alive t with
+      | true =>
+        have hjt : ((hooksPhase w t).2.foldl judge1 j).alive t = true := by rw [← hal1, hat]
+        obtain ⟨hR2, hF2⟩ := sim_destLeaf hR1 t hat
+        simp only [if_true]
+        unfold StepOK
+        have hne : ∀ b : Bool, ((if b = true then Status.ok else Status.stop) = Status.err) = False := by
+          intro b; cases b <;> simp
+        simp only [hne, if_false, List.foldl_append, List.foldl_cons, List.foldl_nil]
+        have hjd : judge1 ((hooksPhase w t).2.foldl judge1 j) (.dest self t) =
+            { jDisable ((hooksPhase w t).2.foldl judge1 j) t with dead := t :: ((hooksPhase w t).2.foldl judge1 j).dead } := by
+          simp [judge1, ha1, hjt, ht2]
+        rw [hjd]
+        exact ⟨hR2, Frame.trans hF1 hF2⟩
+      | false =>
+        have hjt : ((hooksPhase w t).2.foldl judge1 j).alive t = false := by rw [← hal1, hat]
+        simp only [Bool.false_eq_true, if_false]
+        unfold StepOK
+        have hne : ∀ b : Bool, ((if b = true then Status.ok else Status.stop) = Status.err) = False := by
+          intro b; cases b <;> simp
+        simp only [hne, if_false, List.foldl_append, List.foldl_cons, List.foldl_nil]
+        have hjd : judge1 ((hooksPhase w t).2.foldl judge1 j) (.destGone self t) = (hooksPhase w t).2.foldl judge1 j := by
+          simp [judge1, hjt]
+        rw [hjd]
+        exact ⟨hR1, hF1⟩
+  | shb t n => exact sim_stepOpBasic h ha self _
+  | q t => exact sim_stepOpBasic h ha self _
+  | clone a b c => exact sim_stepOpBasic h ha self _
+  | err => exact sim_stepOpBasic h ha self _
+  | flag => exact sim_stepOpBasic h ha self _
+  | hbs => exact sim_stepOpBasic h ha self _
+  | take i => exact sim_stepOpBasic h ha self _
 
 theorem sim_runOps (self : Nat) : ∀ (ops : List Op) (w : World) (j : JState), RP w j → opAllowed j = true →
     StepOK w j (runOps w self ops) := by
@@ -786,7 +979,7 @@ theorem sim_round (sc : Scripts) (fuel : Nat) (w : World) (j : JState)
 def Idle (w : World) (j : JState) : Prop :=
   R0 w j ∧ j.inRound = false ∧ j.expect = .idle ∧ j.bad = []
 
-theorem idle_init : Idle {} {} :=
+theorem idle_init (hk : Nat → List Op) : Idle { hooks := hk } {} :=
   ⟨⟨rfl, rfl, rfl, rfl, rfl, rfl, rfl, Nat.le_refl _, by intro x hx; cases hx⟩, rfl, rfl, rfl⟩
 
 /-- one timer tick -/
